@@ -6,6 +6,7 @@ import witness
 import codec_rules
 import page_rules
 import xml_rules
+import header_rules
 import bounds_rules
 import validation_rules
 
@@ -35,6 +36,7 @@ def run(ctx):
     ctx.rule("R10", "bit packing on both sides: stored form, add_bits (aligned path and bit loop), extraction window, append keeps tail and phase (shared with C12-R2/R4/R5)")
     ctx.rule("R12", "the prototype comes back identical: type attributes written = read, integer limits parsed as integers (shared with C04-R4)")
     ctx.rule("R13", "the prototype validator pairs each Is<X>Invalid flag with its own value record <X>: the flag alone is rejected, the pair alone is accepted")
+    ctx.rule("R14", "after finalize the points can be read: header written after the XML was flushed, success is the result of the final flush (shared with C15-R1 / C16-R3)")
     ctx.rule("R11", "the page reload behind every seek back (PagedWriter::read_current_page) loops over short reads and zero-fills (shared with C11-R6)")
     for cfg in (["lib"] if ctx.tier == "quick" else ["lib", "lib_crc32c"]):
         prog, info = load_program(cfg, "e57")
@@ -56,5 +58,6 @@ def run(ctx):
         if cfg == "lib":
             ctx.call(xml_rules.type_attributes, prog, "R12")
         ctx.call(validation_rules.flag_value_pairs, prog, "R13")
+        ctx.call(header_rules.publication_order, prog, "R14")
     ctx.cfg = None
     ctx.call(witness.run, "R8", ["pcw_second_pointcloud", "pcw_blob_while_open", "pcw_image_while_open", "pcw_finalize_while_open"])
